@@ -52,18 +52,22 @@ func ConvertToParagraph(incoming interface{}) (*Paragraph, error) {
 	if data.Type().Kind() != reflect.Ptr {
 		return nil, fmt.Errorf("Can only Decode a pointer to a Struct")
 	}
-	return convertToParagraph(data.Elem())
+	paragraph, _, err := convertToParagraph(data.Elem())
+	return paragraph, err
 }
 
 // Top-level conversion dispatch {{{
 
-func convertToParagraph(data reflect.Value) (*Paragraph, error) {
+/* The second result names the fields that are to be written on the lines
+ * after the key (`multiline:"true"`). */
+func convertToParagraph(data reflect.Value) (*Paragraph, map[string]bool, error) {
 	order := []string{}
 	values := map[string]string{}
 	omitted := map[string]bool{}
+	nextLine := map[string]bool{}
 
 	if data.Type().Kind() != reflect.Struct {
-		return nil, fmt.Errorf("Can only Decode a Struct")
+		return nil, nil, fmt.Errorf("Can only Decode a Struct")
 	}
 
 	paragraphType := reflect.TypeOf(Paragraph{})
@@ -92,7 +96,7 @@ func convertToParagraph(data reflect.Value) (*Paragraph, error) {
 
 		data, err := marshalStructValue(field, fieldType)
 		if err != nil {
-			return nil, err
+			return nil, nil, err
 		}
 
 		required := fieldType.Tag.Get("required") == "true"
@@ -104,7 +108,7 @@ func convertToParagraph(data reflect.Value) (*Paragraph, error) {
 		}
 
 		if fieldType.Tag.Get("multiline") == "true" {
-			data = "\n" + data
+			nextLine[paragraphKey] = true
 		}
 
 		order = append(order, paragraphKey)
@@ -120,7 +124,7 @@ func convertToParagraph(data reflect.Value) (*Paragraph, error) {
 		}
 	}
 	para := kept.Update(Paragraph{Order: order, Values: values})
-	return &para, nil
+	return &para, nextLine, nil
 }
 
 // }}}
@@ -330,12 +334,12 @@ func (e *Encoder) encodeStruct(data reflect.Value) error {
 			return err
 		}
 	}
-	paragraph, err := convertToParagraph(data)
+	paragraph, nextLine, err := convertToParagraph(data)
 	if err != nil {
 		return err
 	}
 	e.alreadyWritten = true
-	return paragraph.WriteTo(e.writer)
+	return paragraph.writeTo(e.writer, nextLine)
 }
 
 // }}}
